@@ -351,6 +351,15 @@ package config
 //@ func RuleLinkSettings.validate [C18]
 //@   ensures result == nil ==> (s.Timeout != "" ==> durParses(s.Timeout))
 
+// C18 (repository): the reporters built by `pint ci` parse the timeout with the error dropped and use maxComments as a
+// limit; an accepted repository block carries a timeout that parses and a non-negative limit.
+//@ func BitBucket.validate [C18]
+//@   ensures result == nil ==> durParses(bb.Timeout) && bb.Project != "" && bb.Repository != "" && bb.URI != "" && bb.MaxComments >= 0
+//@ func GitHub.validate [C18]
+//@   ensures result == nil ==> durParses(gh.Timeout) && gh.MaxComments >= 0
+//@ func GitLab.validate [C18]
+//@   ensures result == nil ==> gl.Project > 0 && gl.MaxComments >= 0
+
 // C18 (discovery): the uri of a prometheusQuery discovery block is handed to promapi.NewPrometheus, whose requests
 // parse it with the error dropped (Prometheus.doRequest): it must parse when the configuration is loaded.
 //@ func PrometheusQuery.validate [C18]
